@@ -21,12 +21,23 @@ S1(x) == Str(<<x>>)
 
 \* R1: unsorted, asymmetric arrays (an in-place reorder is visible), a list of lists, objects of equal size with different
 \* key sets and null members, strings that name members (sel, keys: data-dependent paths)
+BigI(neg, d) == [t |-> "bigint", neg |-> neg, d |-> d]
+B53 == BigI(FALSE, <<9,0,0,7,1,9,9,2,5,4,7,4,0,9,9,2>>)          \* 2^53
+B53p1 == BigI(FALSE, <<9,0,0,7,1,9,9,2,5,4,7,4,0,9,9,3>>)        \* 2^53 + 1: rounds to 2^53 as a float64
+B62p1 == BigI(FALSE, <<4,6,1,1,6,8,6,0,1,8,4,2,7,3,8,7,9,0,5>>)  \* 2^62 + 1
+B62 == BigI(FALSE, <<4,6,1,1,6,8,6,0,1,8,4,2,7,3,8,7,9,0,4>>)
+MaxI == BigI(FALSE, <<9,2,2,3,3,7,2,0,3,6,8,5,4,7,7,5,8,0,7>>)
+MaxIm1 == BigI(FALSE, <<9,2,2,3,3,7,2,0,3,6,8,5,4,7,7,5,8,0,6>>)
+MinI == BigI(TRUE, <<9,2,2,3,3,7,2,0,3,6,8,5,4,7,7,5,8,0,8>>)
+MinIp1 == BigI(TRUE, <<9,2,2,3,3,7,2,0,3,6,8,5,4,7,7,5,8,0,7>>)
+BigInts == {B53, B53p1, B62p1, B62, MaxI, MaxIm1, MinI, MinIp1}
 R1 == Obj([src |-> Obj([a |-> IntV(1), b |-> Arr(<<IntV(3), IntV(1), IntV(2)>>), c |-> Obj([d |-> S1(120), e |-> IntV(2)]),
                         s |-> Str(<<97, 98>>), f |-> Flt(3, 1), t |-> Bool(TRUE), n |-> Null,
                         l |-> Arr(<<Obj([k |-> IntV(2), v |-> S1(112)]), Obj([k |-> IntV(1), v |-> S1(113)])>>),
                         ll |-> Arr(<<Arr(<<IntV(3), IntV(1), IntV(2)>>), Arr(<<IntV(2), IntV(1)>>)>>),
                         sel |-> S1(97), keys |-> Arr(<<S1(97), S1(102), S1(97)>>), o |-> Obj([a |-> IntV(1), c |-> Null]),
-                        zf |-> Flt(0, 0), zi |-> IntV(0), tmp |-> IntV(1)])])
+                        zf |-> Flt(0, 0), zi |-> IntV(0), tmp |-> IntV(1),
+                        big |-> B53p1, big2 |-> B53, ids |-> Arr(<<B62p1, B62>>), rec |-> Obj([id |-> MaxI])])])
 R2 == Obj([src |-> Arr(<<IntV(1), S1(97), Arr(<<IntV(2)>>)>>), asm |-> Obj([x |-> IntV(1)])])
 R3 == Obj([src |-> Obj([k |-> IntV(5), x |-> IntV(7)])])
 \* the second root of every case (same shape, other values): the SAME Plan object is executed on it after the first root
@@ -35,7 +46,8 @@ R1b == Obj([src |-> Obj([a |-> IntV(5), b |-> Arr(<<IntV(9), IntV(7), IntV(8)>>)
                          l |-> Arr(<<Obj([k |-> IntV(1), v |-> S1(113)]), Obj([k |-> IntV(3), v |-> S1(114)])>>),
                          ll |-> Arr(<<Arr(<<IntV(2), IntV(9), IntV(4)>>), Arr(<<IntV(1), IntV(0)>>)>>),
                          sel |-> S1(102), keys |-> Arr(<<S1(102), S1(97)>>), o |-> Obj([a |-> IntV(1), c |-> IntV(2)]),
-                         zf |-> Flt(0, 0), zi |-> IntV(0), tmp |-> IntV(2)])])
+                         zf |-> Flt(0, 0), zi |-> IntV(0), tmp |-> IntV(2),
+                         big |-> B62p1, big2 |-> B62, ids |-> Arr(<<B53p1, B53>>), rec |-> Obj([id |-> MaxIm1])])])
 R2b == Obj([src |-> Arr(<<IntV(4), S1(98), Arr(<<IntV(6), IntV(5)>>)>>), asm |-> Obj([x |-> IntV(2)])])
 R3b == Obj([src |-> Obj([k |-> IntV(6), x |-> IntV(1)])])
 
@@ -252,6 +264,27 @@ RetPlans == {Call("asm", <<Keep, m, u>>) : m \in Mids, u \in Consumers}
 Var3Plans == {Call(f, t) : f \in {x \in Fns : Canon(x) \in {"and", "or", "list", "equal", "neq", "asm", "sum"} /\ Canon(x) = x},
                            t \in UNION {{<<s, r, r>>, <<r, s, r>>, <<r, r, s>>, <<r, s, r, r>>} : s \in Special \cup {Bool(FALSE)}, r \in {Bool(TRUE), IntV(3)}}}
 
+\* ------------------------------------------------------------------ integers beyond 2^53 (distinct integers that round to the same
+\* float64): literal and read from $.src, pairwise, alone and inside lists / maps, for equality and for the order functions
+BigAtoms == BigInts \cup {IntV(3), P(FALSE, <<C("src"), C("big")>>), P(FALSE, <<C("src"), C("big2")>>), P(FALSE, <<C("src"), C("ids"), N(0)>>)}
+BigConts == {Arr(<<B53>>), Arr(<<B53p1>>), Obj([id |-> B53p1]), Obj([id |-> B53]), Arr(<<IntV(1), Obj([id |-> MaxI])>>), Arr(<<IntV(1), Obj([id |-> MaxIm1])>>),
+             P(FALSE, <<C("src"), C("ids")>>), Arr(<<B62p1, B62>>), Arr(<<B62, B62>>), P(FALSE, <<C("src"), C("rec")>>), Obj([id |-> MaxI]), Flt(3, 1), Flt(2, 0)}
+BigPlans == {Call(f, <<a, b>>) : f \in {x \in Fns : Canon(x) \in {"equal", "neq", "lt", "lte", "gt", "gte"} /\ (Big \/ Canon(x) = x)}, a \in BigAtoms, b \in BigAtoms}
+            \cup {Call(f, <<a, b>>) : f \in {x \in Fns : Canon(x) \in {"equal", "neq"} /\ (Big \/ Canon(x) = x)}, a \in BigConts \cup {B53, B53p1, MaxI}, b \in BigConts \cup {B53, B53p1, MaxI}}
+            \cup {Call(f, <<a, b, d>>) : f \in {"equal", "neq", "lt", "gte"}, a \in {B53, B53p1}, b \in {B53, B53p1, MaxI}, d \in {B53, B53p1, IntV(3)}}
+            \cup {Call(f, <<a>>) : f \in Fns, a \in {B53p1, MinI}} \cup {Call(f, <<a, b>>) : f \in {"sum", "dif", "product", "quotient", "mod", "nth", "list", "size"}, a \in {B53p1, IntV(3)}, b \in {MaxI, IntV(2)}}
+
+\* ------------------------------------------------------------------ the implied asm: "the first asm is optional" - a plan whose first
+\* element is not a function name (a path string, a plain string, a number, a map, a list, null, true) is the asm of ALL
+\* its elements; emitted bare (without the name) and with it: both must behave as Exec says (law plan == [asm plan...])
+ImpliedFirsts == {P(FALSE, <<C("src"), C("b")>>), P(TRUE, <<C("src"), C("c")>>), Str(<<97, 98>>), Str(<<>>), IntV(5), Flt(3, 1), Obj([keep |-> IntV(7)]), Obj(<<>>),
+                  Arr(<<IntV(3), IntV(1), IntV(2)>>), Arr(<<>>), Null, Bool(TRUE), Bool(FALSE), B53p1}
+ImpliedRests == {<<>>, <<Call("set", <<P(FALSE, <<C("asm")>>), P(TRUE, <<>>)>>)>>, <<Call("set", <<P(FALSE, <<C("asm"), C("r")>>), Call("size", <<P(TRUE, <<>>)>>)>>)>>,
+                 <<Call("set", <<P(FALSE, <<C("asm"), C("k")>>), P(TRUE, <<C("keep")>>)>>)>>, <<Call("set", <<P(FALSE, <<C("asm")>>), Call("list", <<P(TRUE, <<>>), IntV(1)>>)>>)>>,
+                 <<IntV(9), Call("set", <<P(FALSE, <<C("asm")>>), P(TRUE, <<>>)>>)>>, <<Call("set", <<P(FALSE, <<C("asm"), C("a")>>), P(TRUE, <<>>)>>), Call("set", <<P(FALSE, <<C("asm"), C("b")>>), IntV(2)>>)>>,
+                 <<Call("set", <<P(FALSE, <<C("asm")>>), Call("null?", <<P(TRUE, <<>>)>>)>>)>>}
+ImpliedPlans == {Call("asm", <<x>> \o r) : x \in ImpliedFirsts, r \in ImpliedRests}
+
 \* ------------------------------------------------------------------ families
 Both(ps, r) == {Case(Wrapped(p), r, FALSE) : p \in ps} \cup {Case(p, r, FALSE) : p \in ps}
 Cases ==
@@ -272,6 +305,8 @@ Cases ==
     [] Part = "cmp" -> {Case(Wrapped(p), R1, FALSE) : p \in CmpPlans}
     [] Part = "retval" -> {Case(p, R1, b) : p \in RetPlans, b \in (IF Big THEN BOOLEAN ELSE {FALSE})}
     [] Part = "var3" -> {Case(Wrapped(p), R1, FALSE) : p \in Var3Plans}
+    [] Part = "bigint" -> {Case(Wrapped(p), R1, FALSE) : p \in BigPlans}
+    [] Part = "implied" -> {Case(p, R1, b) : p \in ImpliedPlans, b \in BOOLEAN}
     [] Part = "forms" -> Both(CondPlans \cup SortPlans \cup EachPlans, R1) \cup Both(SortPlans, R3)
     [] OTHER -> {}
 
